@@ -13,6 +13,7 @@ package c08
 
 import (
 	"context"
+	"encoding/json"
 	"fmt"
 	"strings"
 	"sync"
@@ -39,10 +40,10 @@ func TestMain(m *testing.M) { vkit.Main(m, "C08") }
 // case description (JSON-serialisable replay unit)
 
 type Op struct {
-	Kind   string `json:"kind"`             // connect relogin hb hbold close tick sweep
+	Kind   string `json:"kind"`             // connect relogin hb hbold close tick sweep shutdown
 	Client int    `json:"client,omitempty"` // connect, hb
 	Node   int    `json:"node,omitempty"`   // connect
-	Mode   string `json:"mode,omitempty"`   // connect: good | bad-secret | tunnel-type | no-handshake
+	Mode   string `json:"mode,omitempty"`   // connect: good | bad-secret | tunnel-type | no-handshake | dead-at-response (valid credentials, transport dead when the node writes its final response)
 	// close: "read1" / "read2" = the closing node's store fails the 1st / 2nd read of a connection record once (every backend)
 	Fault string `json:"fault,omitempty"` // connect(good) / hb: the shared tier of the handling node refuses the write of "conn_state", "client_conn" (once) or "both" (for the whole event); tiered backend only
 	Conn  int    `json:"conn,omitempty"`  // close / hbold: ordinal of the connect op whose connection is closed (by its owning node) / heartbeats late
@@ -97,11 +98,23 @@ func genCase(t *rapid.T) Case {
 	newest := [nClients]int{-1, -1}
 	n := rapid.IntRange(4, 16).Draw(t, "nops")
 	ticks := 0
-	kinds := []string{"connect", "connect", "connect", "connect", "hb", "hbold", "close", "close", "close", "tick", "tick", "tick", "streak", "sweep", "lapse", "relogin", "sibling"}
+	kinds := []string{"connect", "connect", "connect", "connect", "hb", "hbold", "close", "close", "close", "tick", "tick", "tick", "streak", "sweep", "lapse", "relogin", "sibling", "shutdown"}
 	streaks, lapses, siblings := 0, 0, 0
+	down := make([]bool, c.Nodes)
+	liveNode := func(label string) int {
+		for {
+			if nd := rapid.IntRange(0, c.Nodes-1).Draw(t, label); !down[nd] {
+				return nd
+			}
+		}
+	}
+	shutdowns := 0
 	for i := 0; i < n; i++ {
 		k := rapid.SampledFrom(kinds).Draw(t, "kind")
 		if k == "streak" && (!short || streaks >= 1) {
+			k = "close"
+		}
+		if k == "shutdown" && (shutdowns >= 1 || i < 3) {
 			k = "close"
 		}
 		if k == "sibling" && (!short || siblings >= 1) {
@@ -148,8 +161,8 @@ func genCase(t *rapid.T) Case {
 		}
 		switch k {
 		case "connect":
-			op := Op{Kind: "connect", Client: rapid.IntRange(0, nClients-1).Draw(t, "client"), Node: rapid.IntRange(0, c.Nodes-1).Draw(t, "node")}
-			op.Mode = rapid.SampledFrom([]string{"good", "good", "good", "good", "good", "bad-secret", "tunnel-type", "no-handshake"}).Draw(t, "mode")
+			op := Op{Kind: "connect", Client: rapid.IntRange(0, nClients-1).Draw(t, "client"), Node: liveNode("node")}
+			op.Mode = rapid.SampledFrom([]string{"good", "good", "good", "good", "good", "good", "bad-secret", "tunnel-type", "no-handshake", "dead-at-response"}).Draw(t, "mode")
 			if !created[op.Client] {
 				op.Mode = "good" // the first event of a client registers it (first-connection handshake)
 				created[op.Client] = true
@@ -192,6 +205,17 @@ func genCase(t *rapid.T) Case {
 			if len(superseded) > 0 && rapid.IntRange(0, 3).Draw(t, "lateHB") > 0 {
 				c.Ops = append(c.Ops, Op{Kind: "hbold", Conn: superseded[rapid.IntRange(0, len(superseded)-1).Draw(t, "oldConn")]})
 			}
+		case "shutdown":
+			// a node is shut down (SessionManager.Close) and its transports are then torn down by the adapters' read loops
+			shutdowns++
+			nd := liveNode("downNode")
+			down[nd] = true
+			for j := range conns {
+				if conns[j].node == nd {
+					conns[j].open = false
+				}
+			}
+			c.Ops = append(c.Ops, Op{Kind: "shutdown", Node: nd})
 		case "sibling":
 			// a second, idle connection of a connected client on the same node (tunnel-type login that never opens a
 			// tunnel, or a failed login) goes stale and is swept while the control connection keeps heartbeating; the
@@ -253,7 +277,7 @@ func genCase(t *rapid.T) Case {
 			c.Ops = append(c.Ops, op)
 		case "sweep":
 			// heartbeat-timeout sweep on one node: everything on it that is not kept active is closed by the node
-			op := Op{Kind: "sweep", Node: rapid.IntRange(0, c.Nodes-1).Draw(t, "sweepNode")}
+			op := Op{Kind: "sweep", Node: liveNode("sweepNode")}
 			for _, x := range hbable {
 				if rapid.IntRange(0, 2).Draw(t, "keep") == 0 {
 					op.HB = append(op.HB, x)
@@ -510,20 +534,23 @@ type bclient struct {
 }
 
 type backend struct {
-	arms       []*faultArm // per node; tiered backend only
-	rarms      []*readArm  // per node; every backend
-	ttl        time.Duration
-	lapsed     bool // a heartbeat arrived after the registration had provably lapsed
-	relogins   int
-	reloginOld bool // a second handshake on a superseded connection made it the current one again
-	readHit    bool
-	faulted    bool
-	name       string
-	nodes      []*miniserver.Server
-	mr         *miniredis.Miniredis
-	conns      []*bconn
-	clients    [nClients]*bclient
-	dead       bool
+	arms         []*faultArm // per node; tiered backend only
+	rarms        []*readArm  // per node; every backend
+	ttl          time.Duration
+	down         []bool // nodes that were shut down
+	deadResponse bool
+	shutdownLast bool // a shutdown took a client's last connection with it
+	lapsed       bool // a heartbeat arrived after the registration had provably lapsed
+	relogins     int
+	reloginOld   bool // a second handshake on a superseded connection made it the current one again
+	readHit      bool
+	faulted      bool
+	name         string
+	nodes        []*miniserver.Server
+	mr           *miniredis.Miniredis
+	conns        []*bconn
+	clients      [nClients]*bclient
+	dead         bool
 	// evidence
 	reconnectOtherNode bool
 	oldClosedLate      bool
@@ -658,6 +685,10 @@ func (b *backend) armFault(node int, mode string, client int) func() {
 }
 
 func (b *backend) connect(op Op, seq int) *failure {
+	if b.isDown(op.Node) {
+		b.conns = append(b.conns, &bconn{})
+		return nil
+	}
 	cl, err := b.nodes[op.Node].Connect(nextAddr())
 	if err != nil {
 		panic("C08 harness: Connect: " + err.Error())
@@ -704,11 +735,55 @@ func (b *backend) connect(op Op, seq int) *failure {
 		if err != nil || r == nil || !r.Success {
 			return &failure{"C08/unclassified/valid-login-refused/" + b.name, fmt.Sprintf("tunnel-type login refused: %+v %v", r, err)}
 		}
+	case "dead-at-response":
+		// the client started this handshake and abandoned the connection; the node processes the (valid) second
+		// phase when the transport can no longer be written to: the handshake never completed for the client
+		r1, _, rerr := cl.Handshake(&packet.HandshakeRequest{ClientID: x.id, Version: "2.0", Protocol: "tcp", ConnectionType: "control"})
+		if rerr != nil || r1 == nil || !r1.NeedResponse || r1.Challenge == "" {
+			return &failure{"C08/unclassified/valid-login-refused/" + b.name, fmt.Sprintf("no challenge for a valid client: %+v %v", r1, rerr)}
+		}
+		cl.Far.FailWriteAfter.Store(0)
+		body, _ := json.Marshal(&packet.HandshakeRequest{ClientID: x.id, Version: "2.0", Protocol: "tcp", ConnectionType: "control",
+			ChallengeResponse: miniserver.ComputeResponse(x.secret, r1.Challenge)})
+		cl.Push(&packet.TransferPacket{PacketType: packet.Handshake, Payload: body})
+		b.deadResponse = true
 	case "no-handshake":
 	}
 	cl.Drain()
 	return nil
 }
+
+// shutdown closes node's session manager, then the adapters' read loops fail and close every connection of the node.
+func (b *backend) shutdown(node int) {
+	if b.down == nil {
+		b.down = make([]bool, len(b.nodes))
+	}
+	if node >= len(b.nodes) || b.down[node] {
+		return
+	}
+	b.down[node] = true
+	b.nodes[node].SM.Close()
+	for _, bc := range b.conns {
+		if bc.cl == nil || !bc.open || bc.node != node {
+			continue
+		}
+		bc.cl.CloseByPeer()
+		b.noteClosed(bc)
+		if bc.authed {
+			last := true
+			for _, o := range b.conns {
+				if o.cl != nil && o.client == bc.client && o.open && o.authed {
+					last = false
+				}
+			}
+			if last {
+				b.shutdownLast = true
+			}
+		}
+	}
+}
+
+func (b *backend) isDown(node int) bool { return b.down != nil && node < len(b.down) && b.down[node] }
 
 // relogin performs a second successful control handshake on an open, already authenticated connection.
 func (b *backend) relogin(k, seq int) *failure {
@@ -900,6 +975,9 @@ func (b *backend) judge(c Case, step string) *failure {
 			}
 		}
 		for ni, n := range b.nodes {
+			if b.isDown(ni) {
+				continue // a node that was shut down answers nobody
+			}
 			lb := time.Now()
 			node, conn, err := n.SM.GetConnectionStateStore().FindClientNode(ctx, x.id)
 			la := time.Now()
@@ -1038,10 +1116,16 @@ func runCase(c Case) *result {
 					b.closeConn(op.Conn, op.Fault)
 				}
 			}
+		case "shutdown":
+			for _, b := range bs {
+				if !b.dead {
+					b.shutdown(op.Node)
+				}
+			}
 		case "sweep":
 			time.Sleep(6 * time.Millisecond)
 			for _, b := range bs {
-				if !b.dead && op.Node < len(b.nodes) {
+				if !b.dead && op.Node < len(b.nodes) && !b.isDown(op.Node) {
 					b.sweep(op.Node, op.HB)
 				}
 			}
@@ -1105,6 +1189,12 @@ func check(t vkit.TB, c Case) {
 		if b.lateOldHB {
 			vkit.Class("feat:late-heartbeat-on-superseded-conn/" + b.name)
 		}
+		if b.shutdownLast {
+			vkit.Class("feat:node-shutdown-took-last-conn/" + b.name)
+		}
+		if b.deadResponse {
+			vkit.Class("feat:handshake-response-unwritable/" + b.name)
+		}
 		if b.relogins > 0 {
 			vkit.Class("feat:second-handshake-on-authenticated-conn/" + b.name)
 		}
@@ -1126,7 +1216,7 @@ func check(t vkit.TB, c Case) {
 		if b.sweptLast {
 			vkit.Class("feat:stale-sweep-closed-last-conn/" + b.name)
 		}
-		nt := (b.reconnectOtherNode && b.oldClosedLate) || b.hbSpan || b.lateOldHB || b.sweptLast || b.lapsed || b.readHit || b.reloginOld
+		nt := (b.reconnectOtherNode && b.oldClosedLate) || b.hbSpan || b.lateOldHB || b.sweptLast || b.lapsed || b.readHit || b.reloginOld || b.shutdownLast
 		vkit.Case(class+"/"+b.name, nt, b.name+"#"+sig)
 		vkit.AddExtra("lookups_resolved_fresh", int64(b.resolved))
 		vkit.AddExtra("lookups_not_connected", int64(b.gone))
@@ -1200,6 +1290,10 @@ func TestScenarios(t *testing.T) {
 		// an idle tunnel-type sibling of the control connection is swept; the control connection lives on by heartbeats
 		{Nodes: 2, TTLms: shortTTLms, Ops: []Op{{Kind: "connect", Client: 0, Node: 0, Mode: "good"}, {Kind: "connect", Client: 0, Node: 0, Mode: "tunnel-type"}, {Kind: "sweep", Node: 0, HB: []int{0}},
 			{Kind: "tick", HB: []int{0}, FF: true}, {Kind: "tick", HB: []int{0}, FF: true}, {Kind: "tick", HB: []int{0}, FF: true}, {Kind: "tick", HB: []int{0}, FF: true}, {Kind: "tick", HB: []int{0}, FF: true}, {Kind: "close", Conn: 0}}},
+		// the node holding the client's only connection is shut down; the other node must not keep locating it there
+		{Nodes: 2, TTLms: 30000, Ops: []Op{{Kind: "connect", Client: 0, Node: 0, Mode: "good"}, {Kind: "connect", Client: 1, Node: 1, Mode: "good"}, {Kind: "shutdown", Node: 0}, {Kind: "hb", Client: 1}}},
+		// a handshake abandoned on node 1 is finished by the node when its transport is dead, after the client completed one on node 2
+		{Nodes: 2, TTLms: 30000, Ops: []Op{{Kind: "connect", Client: 0, Node: 1, Mode: "good"}, {Kind: "connect", Client: 0, Node: 0, Mode: "dead-at-response"}, {Kind: "close", Conn: 1}, {Kind: "hb", Client: 0}, {Kind: "close", Conn: 0}}},
 		// default lifetime (ttl argument 0)
 		{Nodes: 2, TTLms: 0, Ops: []Op{{Kind: "connect", Client: 1, Node: 1, Mode: "good"}, {Kind: "connect", Client: 1, Node: 1, Mode: "bad-secret"}, {Kind: "connect", Client: 1, Node: 0, Mode: "tunnel-type"}, {Kind: "close", Conn: 0}}},
 	} {
